@@ -297,7 +297,7 @@ func (x *Exec) valueInstr(fr *frame, st *State, ins ssa.Value, reach Term) Val {
 	case *ssa.MakeSlice:
 		n := x.materialize(x.val(fr, i.Len), types.Typ[types.Int])
 		cp := x.materialize(x.val(fr, i.Cap), types.Typ[types.Int])
-		id := x.freshSliceID()
+		id := x.freshSliceID(st)
 		return Val{T: i.Type(), L: []Term{id, Extend(n.L[0], 64, true), Extend(cp.L[0], 64, true)}}
 	case *ssa.MakeChan:
 		return freshVal(x.c, fr.prefix+"_chan", i.Type())
@@ -359,10 +359,19 @@ func (x *Exec) valueInstr(fr *frame, st *State, ins ssa.Value, reach Term) Val {
 	panic(fmt.Sprintf("unsupported value instruction %T in %s", ins, fr.fn.String()))
 }
 
-func (x *Exec) freshSliceID() Term {
+// freshSliceID: the identity of a backing store allocated now (make, growing
+// append): the allocation frontier, distinct from every store handed out
+// before (ids of stores obtained otherwise -- results of deterministic library
+// functions, array objects -- live above 2^62 or are unconstrained).
+func (x *Exec) freshSliceID(st *State) Term {
 	x.sliceCtr++
-	id := x.c.Fresh("slice", SBV(64))
-	x.c.Assume(Not(Eq(id, BVLit(0, 64))))
+	if st == nil {
+		id := x.c.Fresh("slice", SBV(64))
+		x.c.Assume(Not(Eq(id, BVLit(0, 64))))
+		return id
+	}
+	id := st.sctr
+	st.sctr = x.c.Define("sctr", Op("bvadd", SBV(64), st.sctr, BVLit(1, 64)))
 	return id
 }
 
@@ -766,7 +775,7 @@ func (x *Exec) sliceOp(fr *frame, st *State, i *ssa.Slice, reach Term) Val {
 			x.c.Assume(Not(Eq(id, BVLit(0, 64))))
 		} else {
 			// array embedded in another object: copy semantics lost (noted)
-			id = x.freshSliceID()
+			id = x.freshSliceID(st)
 			x.c.Note("slice of an array field: aliasing with the array not modelled")
 			es := shape(arr.Elem())
 			if len(es) == 1 {
